@@ -874,7 +874,32 @@ def r10_wildcard_gets_the_segments(ctx):
     c01.r3_walk_integrity(Renamed(ctx, "C09.R10", "path variables are bound to the segments of the walk: one segment per single variable, all remaining segments in order per wildcard"))
 
 
-RULES = [("C09.R9", r9_path_segments_decoded_once), ("C09.R10", r10_wildcard_gets_the_segments), ("C09.R8", r8_media_type_normalised), ("C09.R7", r7_every_framing_accepted), ("C09.R1", r1_decoder_inputs), ("C09.R2", r2_primitive_table), ("C09.R3", r3_request_context), ("C09.R4", r4_no_shared_channel),
+def r11_request_not_rewritten(ctx):
+    """Added after adversary change C09-G: http_request_handle rewrote an absolute-form / HTTP/2 request target to origin-form from
+    `uri().path()` alone, so the query string never reached Query<T> or the handler."""
+    R = ctx.rule("C09.R11", "between the connection and the handler nothing rewrites the request: the dispatch path (ServerRequestHandler::call, http_request_handle_wrap, http_request_handle "
+                 "and everything they build) uses only the read accessors of http::Request and Request::map (which changes the body type, not the head)", floor=3)
+    ds = ctx.ds
+    READ = r"^http::Request::<T>::(method|uri|headers|version|extensions|body|map)$"
+    n = 0
+    for pat in (r"^server::http_request_handle$", r"^server::http_request_handle_wrap$", r"^<server::ServerRequestHandler<C> as hyper::service::Service<http::Request<hyper::body::Incoming>>>::call$"):
+        top = ds.one(pat)
+        if top is None:
+            ctx.lost(R, "function /%s/" % pat)
+            continue
+        b = ds.body_of(top)
+        sites = []
+        for g in [b] + ds.descendants(b):
+            for bb, t in g.live_calls(r"^http::(Request::<T>|request::Parts|request::Builder)::|^http::request::Request::<T>::"):
+                n += 1
+                if not re.search(READ, t["callee"]):
+                    sites.append((g, bb, t["callee"]))
+        ctx.check(R, "request-head-untouched:%s" % top.id.split("::")[-1], not sites,
+                  "calls on the request other than read accessors / map: %s" % (sorted(set(c for _, _, c in sites)) or "none"), (sites[0][0], sites[0][1]) if sites else b)
+    ctx.check(R, "request-accessor-census", n >= 4, "calls on http::Request under the dispatch path: %d" % n, None, nontrivial=False)
+
+
+RULES = [("C09.R11", r11_request_not_rewritten), ("C09.R9", r9_path_segments_decoded_once), ("C09.R10", r10_wildcard_gets_the_segments), ("C09.R8", r8_media_type_normalised), ("C09.R7", r7_every_framing_accepted), ("C09.R1", r1_decoder_inputs), ("C09.R2", r2_primitive_table), ("C09.R3", r3_request_context), ("C09.R4", r4_no_shared_channel),
          ("C09.R5", r5_multipart_boundary), ("C09.R6", r6_positional_arguments)]
 
 _F5_NOW = """        let boundary =
@@ -1090,3 +1115,4 @@ LEVEL_TEXT += (" R2 also decides the table when it is written through a generic 
                "the visiting callable passes its own argument on untouched, the parsing code hands it the Ok payload of the one parse exactly once (`.and_then(f)` / `.map(f)` / `f(v)`, lib_c09.handoffs), and the "
                "helper's type parameter is read off the callable's argument type. R1's query clause accepts the raw query as text or as its bytes (`str::as_bytes`) with an empty literal default (text or byte string, "
                "`c[..]` only as a full-range Index); the streamed chunk's chain starts at the variant-precise sources of the item (lib_c01.sources), so a chunk that comes out of a spliced async helper as `Ok(Some(data))` is `data`.")
+LEVEL_TEXT += " Also (R11): nothing on the dispatch path rewrites the request head (only read accessors and Request::map are used)."
